@@ -117,7 +117,8 @@ def mechanism(draw, closed_loops=True, point_masses=True, conservative=False, ma
                              "kp": draw(gen.f(1, 20)), "ki": draw(gen.f(0.5, 5)), "kd": draw(gen.f(0.1, 2)),
                              "k": draw(gen.f(2, 30)), "d": draw(gen.f(0.5, 5))}
     if draw(st.booleans()):
-        spec["spring"] = {"k": draw(gen.f(5, 60)), "l_ref": draw(gen.f(0.5, 2.0)), "B2": draw(gen.vec3(-2, -0.7)),
+        spec["spring"] = {"k": draw(gen.f(5, 60)), "l_ref": draw(gen.f(0.5, 2.0)) if conservative or draw(st.integers(0, 2)) else None,
+                          "B2": draw(gen.vec3(-2, -0.7)),
                           "d": 0.0 if conservative else draw(st.sampled_from([0.0, 0.0, 0.5]))}
     return spec
 
